@@ -62,6 +62,18 @@ Proof.
   rewrite of_bits_to_bits by exact H. reflexivity.
 Qed.
 
+Lemma read_uint_app_mod n v rest :
+  read_uint n (to_bits n v ++ rest) = Ok (v mod 2 ^ Z.of_nat n, rest).
+Proof.
+  unfold read_uint. rewrite app_length, to_bits_length.
+  destruct (n + length rest <? n)%nat eqn:E; [lia|].
+  rewrite firstn_app, to_bits_length, Nat.sub_diag. cbn [firstn]. rewrite app_nil_r.
+  rewrite (firstn_all2 (to_bits n v)) by (rewrite to_bits_length; lia).
+  rewrite skipn_app, to_bits_length, Nat.sub_diag. cbn [skipn].
+  rewrite (skipn_all2 (to_bits n v)) by (rewrite to_bits_length; lia).
+  rewrite of_bits_to_bits_mod. reflexivity.
+Qed.
+
 Lemma read_uint_short n bs : (length bs < n)%nat -> read_uint n bs = Err EOutOfData.
 Proof. intros H. unfold read_uint. destruct (length bs <? n)%nat eqn:E; [reflexivity|lia]. Qed.
 
